@@ -129,7 +129,9 @@ def gen_history(rnd, n):
         elif r < 0.63:
             c = "function_parameter/1"
         elif r < 0.72:
-            c = rnd.choice(["capability/1", "name/1/6d61696e", "decorate/1/0/-", "type_void", "type_int/32/0", "constant_bit32/1/7", "memory_model/0/1", "id", "string/61"])
+            c = rnd.choice(["capability/1", "name/1/6d61696e", "decorate/1/0/-", "type_void", "type_int/32/0", "constant_bit32/1/7", "memory_model/0/1", "id", "string/61",
+                            "constant_bit64/1/18446744073709551615", "spec_constant_bit64/1/5", "spec_constant_bit32/1/5", "type_pointer/-/7/1", "type_pointer/9/7/1",
+                            "insert_types_global_values/" + rnd.choice(["E", "B", "FB:0", "FE:0"]) + "/19;-;44;-"])
         elif r < 0.80:
             c = rnd.choice(["variable/1/-/7/-", "undef/1/-", "line/1/2/3", "no_line"])
         elif r < 0.88:
